@@ -1,7 +1,12 @@
-SPECIFICATION Spec
+SPECIFICATION SpecAll
 CONSTANTS
   MaxLen = 3
   Frames <- FramesC
   Annots <- AnnotsC
+  FixCleanup = TRUE
+  MaxSess = 4
+  HFiles <- HFilesC
+  Consoles <- NoConsole
 INVARIANT InvLogIdentity
 INVARIANT InvLineShape
+INVARIANT InvHistIdentity
